@@ -13,7 +13,7 @@ All theorems are about the model Ymq/Model/Gf2Small.lean (tied to the code by th
 -/
 import Ymq.Lemmas.Gf2SmallCallsite
 import Ymq.Lemmas.Gf2SmallInverse
-import Ymq.Lemmas.Gf2SmallHang
+import Ymq.Lemmas.Gf2SmallAab
 import Ymq.Model.Gf2Genblock
 
 namespace Ymq.C14Small
@@ -288,9 +288,7 @@ open Ymq.Gf2Genblock Ymq.Gf2 in
 `P = B·mul_aab_opt(B, y)`, so its rank is at most `rank B` (`gram_rank_le`, Mathlib `Matrix.rank` of
 the dense matrix `sparseMat k cols`, repeated indices cancelling in pairs): when `rank B < 64` the model
 of `genblock` refuses EVERY stream of blocks (one 64-bit word per column), without panic — the real loop
-never ends. `rank B < 64` implies `rank (BᵗB)³ < 64`, the oracle's rule; PARTIAL with respect to that
-rule: the case `rank B ≥ 64 > rank (BᵗB)³` needs the matrix semantics of `mul_aab_opt`
-(`ay = Bᵗ·(B·y)`, hence `Gram = yᵗ(BᵗB)³y`), which is not proved. -/
+never ends. Corollary-level statement; the exact rule is `genblock_never_ends_hang_rule`. -/
 theorem genblock_never_ends_low_rank (dbg : Bool) (k : Nat) (cols : List (List Nat)) (ys : List (List Nat))
     (hk64 : 64 ≤ k) (hk : k ≤ 2 ^ 32) (hn : cols.length ≤ 2 ^ 32) (hwf : ∀ col ∈ cols, ∀ a ∈ col, a < k)
     (hrank : (sparseMat k cols).rank < 64)
@@ -299,6 +297,45 @@ theorem genblock_never_ends_low_rank (dbg : Bool) (k : Nat) (cols : List (List N
   apply genblock_never_ends
   exact genblock_refuses_all dbg k cols ys hk hn hwf hrank (fun y hy =>
     ⟨(hys y hy).2, gramOf_total k cols y hk64 hk hn hwf (hys y hy).1⟩)
+
+open Ymq.Gf2Genblock Ymq.Gf2 in
+/-- `mul_aab_opt(B, y)` of the model (dense 64-row part `a.block * tmp[..64]` through `comb`, the other
+rows through the transposed coordinate list) is the matrix product `Bᵗ·(B·y)`; `sparseMat k cols` is the
+dense matrix of the sparse columns (repeated row indices cancel in pairs), `cellMat` a block as a
+matrix with 64 columns. -/
+theorem mul_aab_opt_spec (k : Nat) (cols : List (List Nat)) (y ay : List Nat)
+    (hk : k ≤ 2 ^ 32) (hn : cols.length ≤ 2 ^ 32) (hwf : ∀ col ∈ cols, ∀ a ∈ col, a < k)
+    (h : mulAabOpt (qsOptimize k cols) y = some ay) :
+    ay.length = cols.length ∧
+    cellMat ay.toArray cols.length =
+      (sparseMat k cols)ᵀ * (sparseMat k cols * cellMat y.toArray cols.length) :=
+  cellMat_mulAabOpt k cols y ay hk hn hwf h
+
+open Ymq.Gf2Genblock Ymq.Gf2 in
+/-- the Gram matrix tested by `genblock` is `yᵗ (BᵗB)³ y` (`gramA = BᵗB`), hence of rank at most
+`rank (BᵗB)³` -/
+theorem gram_rank_le_cube (k : Nat) (cols : List (List Nat)) (y g : List Nat)
+    (hk : k ≤ 2 ^ 32) (hn : cols.length ≤ 2 ^ 32) (hwf : ∀ col ∈ cols, ∀ a ∈ col, a < k)
+    (h : gramOf (qsOptimize k cols) y = some g) :
+    toMat 64 g = (cellMat y.toArray cols.length)ᵀ *
+      ((gramA k cols * gramA k cols * gramA k cols) * cellMat y.toArray cols.length) ∧
+    (toMat 64 g).rank ≤ (gramA k cols * gramA k cols * gramA k cols).rank :=
+  ⟨gram_eq_cube k cols y g hk hn hwf h, Gf2Small.gram_rank_le_cube k cols y g hk hn hwf h⟩
+
+open Ymq.Gf2Genblock Ymq.Gf2 in
+/-- L3, the oracle's EXACT hang rule inside the model: when `rank (BᵗB)³ < 64` the model of `genblock`
+refuses every block of EVERY stream (one 64-bit word per column), without panic: no admissible block
+exists and the real loop, which has no other exit, never ends. (The converse — an admissible block
+exists when `rank (BᵗB)³ ≥ 64` — is the classification of symmetric bilinear forms over GF(2); it is
+not proved, the oracle never saw an accepted block with `rank (BᵗB)³ < 64` nor a matrix of rank ≥ 64
+refused more than a few draws.) -/
+theorem genblock_never_ends_hang_rule (dbg : Bool) (k : Nat) (cols : List (List Nat)) (ys : List (List Nat))
+    (hk64 : 64 ≤ k) (hk : k ≤ 2 ^ 32) (hn : cols.length ≤ 2 ^ 32) (hwf : ∀ col ∈ cols, ∀ a ∈ col, a < k)
+    (hrank : (gramA k cols * gramA k cols * gramA k cols).rank < 64)
+    (hys : ∀ y ∈ ys, y.length = cols.length ∧ ∀ w ∈ y, w < 2 ^ 64) :
+    genblock dbg (qsOptimize k cols) ys = .exhausted ys.length := by
+  apply genblock_never_ends
+  exact genblock_refuses_all_cube dbg k cols ys hk64 hk hn hwf hrank hys
 
 open Ymq.Gf2Genblock Ymq.Gf2 in
 /-- concrete witness: the 64 x 2 matrix with two columns `e₀` (any matrix with fewer than 64 columns
